@@ -175,8 +175,12 @@ Proof.
     rewrite <- app_assoc. reflexivity.
 Qed.
 
-(* ================= the texts of values are neutral ================= *)
+(* ================= the texts of values are nice: neutral for both readers, and ASCII ================= *)
 Definition pairs (op cl : N) : Prop := (op = 123 /\ cl = 125) \/ (op = 91 /\ cl = 93).
+Lemma pairs_facts op cl : pairs op cl -> op <> cl /\ op <> 34 /\ cl <> 34 /\ op < 128 /\ cl < 128.
+Proof. intros [[-> ->] | [-> ->]]; repeat split; try discriminate; reflexivity. Qed.
+Definition low (p : list N) : bool := forallb (fun c => N.ltb c 128) p.
+Definition Nice (p : list N) : Prop := (forall op cl, pairs op cl -> Neutral op cl p) /\ low p = true.
 (* characters that are plain for both readers *)
 Definition pl (c : N) : bool := N.ltb c 128 && negb (N.eqb c 34) && negb (N.eqb c 123) && negb (N.eqb c 125) && negb (N.eqb c 91) && negb (N.eqb c 93).
 Lemma pl_plain op cl c : pairs op cl -> pl c = true -> plain op cl c = true.
@@ -184,9 +188,46 @@ Proof.
   unfold pl, plain. intros Hp H. repeat (apply andb_prop in H as [H ?]).
   destruct Hp as [[-> ->] | [-> ->]]; rewrite H; cbn [andb]; repeat match goal with X : negb _ = true |- _ => rewrite X; clear X end; reflexivity.
 Qed.
-Lemma pl_neutral op cl p : pairs op cl -> forallb pl p = true -> Neutral op cl p.
+Lemma pl_low c : pl c = true -> N.ltb c 128 = true.
+Proof. unfold pl. intro H. repeat (apply andb_prop in H as [H ?]). exact H. Qed.
+Lemma nice_nil : Nice [].
+Proof. split; [intros; apply neutral_nil|reflexivity]. Qed.
+Lemma nice_app p q : Nice p -> Nice q -> Nice (p ++ q).
+Proof. intros [Np Lp] [Nq Lq]. split; [intros op cl H; apply neutral_app; auto|unfold low in *; rewrite forallb_app, Lp, Lq; reflexivity]. Qed.
+Lemma nice_pl p : forallb pl p = true -> Nice p.
 Proof.
-  intros Hp H. apply neutral_plains. apply forallb_forall. intros c Hi. apply pl_plain; [exact Hp|]. exact (proj1 (forallb_forall _ _) H c Hi).
+  intro H. split.
+  - intros op cl Hp. apply neutral_plains. apply forallb_forall. intros c Hi. apply pl_plain; [exact Hp|]. exact (proj1 (forallb_forall _ _) H c Hi).
+  - apply forallb_forall. intros c Hi. apply pl_low. exact (proj1 (forallb_forall _ _) H c Hi).
+Qed.
+Lemma nice_join sep toks : Nice sep -> Forall Nice toks -> Nice (join sep toks).
+Proof.
+  intros Hs Hf. induction toks as [|x r IH]; [apply nice_nil|].
+  inversion Hf as [|? ? Hx Hr]; subst. destruct r as [|y r']; [exact Hx|].
+  change (join sep (x :: y :: r')) with (x ++ sep ++ join sep (y :: r')).
+  apply nice_app; [exact Hx|apply nice_app; [exact Hs|apply IH, Hr]].
+Qed.
+Lemma nice_str s : str_ok s = true -> Nice (34 :: s ++ [34]).
+Proof.
+  intro Hs. split.
+  - intros op cl Hp. destruct (pairs_facts op cl Hp) as (_ & Ho & Hc & _ & _). apply neutral_string; auto.
+    + intro Hi. pose proof (proj1 (forallb_forall _ _) Hs 34 Hi) as H. discriminate.
+    + apply str_low, Hs.
+  - unfold low. cbn [forallb]. rewrite forallb_app. rewrite (str_low s Hs). reflexivity.
+Qed.
+(* a block of one reader is plain text for the other *)
+Lemma nice_block op cl inner : pairs op cl -> Nice inner -> Nice (op :: inner ++ [cl]).
+Proof.
+  intros Hp [Ni Li]. destruct (pairs_facts op cl Hp) as (Hne & Ho & Hc & Lo & Lc). split.
+  - intros op' cl' Hp'.
+    assert (Same : (op' = op /\ cl' = cl) \/ (plain op' cl' op = true /\ plain op' cl' cl = true)).
+    { destruct Hp as [[-> ->] | [-> ->]]; destruct Hp' as [[-> ->] | [-> ->]]; auto. }
+    destruct Same as [[-> ->] | [P1 P2]].
+    + apply neutral_block; auto.
+    + change (op :: inner ++ [cl]) with ([op] ++ inner ++ [cl]).
+      apply neutral_app; [apply neutral_plain1, P1|apply neutral_app; [apply Ni, Hp'|apply neutral_plain1, P2]].
+  - unfold low in *. cbn [forallb]. rewrite forallb_app, Li. cbn [forallb].
+    replace (N.ltb op 128) with true by (symmetry; apply N.ltb_lt; exact Lo). replace (N.ltb cl 128) with true by (symmetry; apply N.ltb_lt; exact Lc). reflexivity.
 Qed.
 Lemma num_char_pl c : num_char c = true -> pl c = true.
 Proof.
@@ -198,22 +239,6 @@ Proof.
 Qed.
 Lemma num_chars_pl t : forallb num_char t = true -> forallb pl t = true.
 Proof. intro H. apply forallb_forall. intros c Hi. apply num_char_pl. exact (proj1 (forallb_forall _ _) H c Hi). Qed.
-Lemma pairs_facts op cl : pairs op cl -> op <> cl /\ op <> 34 /\ cl <> 34 /\ op < 128 /\ cl < 128.
-Proof. intros [[-> ->] | [-> ->]]; repeat split; try discriminate; reflexivity. Qed.
-Lemma neutral_join op cl sep toks : Neutral op cl sep -> Forall (Neutral op cl) toks -> Neutral op cl (join sep toks).
-Proof.
-  intros Hs Hf. induction toks as [|x r IH]; [apply neutral_nil|].
-  inversion Hf as [|? ? Hx Hr]; subst. destruct r as [|y r']; [exact Hx|].
-  change (join sep (x :: y :: r')) with (x ++ sep ++ join sep (y :: r')).
-  apply neutral_app; [exact Hx|apply neutral_app; [exact Hs|apply IH, Hr]].
-Qed.
-Lemma str_neutral op cl s : pairs op cl -> str_ok s = true -> Neutral op cl (34 :: s ++ [34]).
-Proof.
-  intros Hp Hs. destruct (pairs_facts op cl Hp) as (_ & Ho & Hc & _ & _).
-  apply neutral_string; auto.
-  - intro Hi. pose proof (proj1 (forallb_forall _ _) Hs 34 Hi) as H. discriminate.
-  - apply str_low, Hs.
-Qed.
 Lemma show_int_pl ng m : forallb pl (show_int ng m) = true.
 Proof.
   destruct (show_int_shape ng m) as (c & body & E & Hc & Hb). rewrite E. cbn [forallb].
@@ -227,7 +252,7 @@ Proof.
   cbn [forallb andb]. change (pl 46) with true. cbn [andb]. apply num_chars_pl, digits_num_chars, H2.
 Qed.
 
-(* the inner text of each kind of array (between the brackets) is neutral for both readers; the whole array text is neutral for the brace reader *)
+(* ---------- typed arrays ---------- *)
 Definition arr_inner (v : jv) : list N :=
   match v with
   | JAI _ xs => join [44] (map (fun x => show_int (fst x) (snd x)) xs)
@@ -240,52 +265,50 @@ Definition arr_inner (v : jv) : list N :=
 Definition is_arr (v : jv) : bool := match v with JAI _ _ | JAF _ | JAS _ | JAB _ | JAN _ => true | _ => false end.
 Lemma arr_vtext v : is_arr v = true -> vtext v = 91 :: arr_inner v ++ [93].
 Proof. destruct v; try discriminate; reflexivity. Qed.
-Lemma comma_neutral op cl : pairs op cl -> Neutral op cl [44].
-Proof. intro Hp. apply pl_neutral; [exact Hp|reflexivity]. Qed.
-Lemma arr_inner_neutral op cl v : pairs op cl -> arr_ok v = true -> Neutral op cl (arr_inner v).
+Lemma arr_inner_nice v : arr_ok v = true -> Nice (arr_inner v).
 Proof.
-  intros Hp Hok. destruct v as [ | | | | | |w xs|xs|xs|xs|n| ]; try discriminate; cbn [arr_inner arr_ok] in *;
-    apply neutral_join; try (apply comma_neutral; exact Hp); apply Forall_forall; intros t Ht.
-  - apply in_map_iff in Ht as (x & <- & _). apply pl_neutral; [exact Hp|apply show_int_pl].
-  - apply in_map_iff in Ht as (x & <- & Hx). apply pl_neutral; [exact Hp|apply disp_pl]. exact (proj1 (forallb_forall _ _) Hok x Hx).
-  - apply in_map_iff in Ht as (s & <- & Hs). apply str_neutral; [exact Hp|]. exact (proj1 (forallb_forall _ _) Hok s Hs).
-  - apply in_map_iff in Ht as (b' & <- & _). apply pl_neutral; [exact Hp|]. destruct b'; reflexivity.
-  - apply repeat_spec in Ht. subst t. apply pl_neutral; [exact Hp|reflexivity].
+  intro Hok. destruct v as [ | | | | | |w xs|xs|xs|xs|n| ]; try discriminate; cbn [arr_inner arr_ok] in *;
+    apply nice_join; try (apply nice_pl; reflexivity); apply Forall_forall; intros t Ht.
+  - apply in_map_iff in Ht as (x & <- & _). apply nice_pl, show_int_pl.
+  - apply in_map_iff in Ht as (x & <- & Hx). apply nice_pl, disp_pl. exact (proj1 (forallb_forall _ _) Hok x Hx).
+  - apply in_map_iff in Ht as (s & <- & Hs). apply nice_str. exact (proj1 (forallb_forall _ _) Hok s Hs).
+  - apply in_map_iff in Ht as (b' & <- & _). apply nice_pl. destruct b'; reflexivity.
+  - apply repeat_spec in Ht. subst t. apply nice_pl. reflexivity.
 Qed.
-Lemma arr_text_neutral_braces v : is_arr v = true -> arr_ok v = true -> Neutral 123 125 (vtext v).
+Lemma arr_text_nice v : is_arr v = true -> arr_ok v = true -> Nice (vtext v).
+Proof. intros Ha Hok. rewrite (arr_vtext v Ha). apply nice_block; [right; auto|apply arr_inner_nice, Hok]. Qed.
+Lemma scalar_text_nice v : scalar_ok v = true -> written v = true -> Nice (vtext v).
 Proof.
-  intros Ha Hok. rewrite (arr_vtext v Ha). change (91 :: arr_inner v ++ [93]) with ([91] ++ arr_inner v ++ [93]).
-  assert (Hp : pairs 123 125) by (left; auto).
-  apply neutral_app; [apply neutral_plain1; reflexivity|]. apply neutral_app; [apply arr_inner_neutral; assumption|apply neutral_plain1; reflexivity].
-Qed.
-Lemma scalar_text_neutral v : scalar_ok v = true -> written v = true -> Neutral 123 125 (vtext v).
-Proof.
-  assert (Hp : pairs 123 125) by (left; auto).
   intros Hs Hw. destruct v as [s|b'|ng m|d p| | | | | | | | ]; try discriminate; cbn [scalar_ok] in Hs.
-  - change (vtext (JS s)) with (34 :: s ++ [34]). apply str_neutral; assumption.
-  - apply pl_neutral; [exact Hp|]. destruct b'; reflexivity.
-  - change (vtext (JI ng m)) with (show_int ng m). apply pl_neutral; [exact Hp|apply show_int_pl].
-  - change (vtext (JF d p)) with d. apply pl_neutral; [exact Hp|]. destruct (dbg_shape d Hs) as (c & body & -> & Hc & Hb & _ & _).
+  - change (vtext (JS s)) with (34 :: s ++ [34]). apply nice_str, Hs.
+  - apply nice_pl. destruct b'; reflexivity.
+  - change (vtext (JI ng m)) with (show_int ng m). apply nice_pl, show_int_pl.
+  - change (vtext (JF d p)) with d. apply nice_pl. destruct (dbg_shape d Hs) as (c & body & -> & Hc & Hb & _ & _).
     cbn [forallb]. rewrite (num_char_pl c (numstart_num_char c Hc)), (num_chars_pl body Hb). reflexivity.
 Qed.
 
-(* ================= arrays as fields: scanned as a block, read back by the typed readers ================= *)
+(* ================= values read with a declared type ================= *)
 Fixpoint norm (v : jv) : jv :=
   match v with
   | JF d _ => JF d d
   | JAF xs => JAF (map (fun x => (arr_float (snd x), arr_float (snd x))) xs)
   | JO fs => JO (map (fun nv => (fst nv, norm (snd nv))) fs)
+  | JAO xs => JAO (map norm xs)
   | x => x
   end.
+Lemma iw_eqb_eq a b : iw_eqb a b = true -> a = b.
+Proof. destruct a, b; try discriminate; reflexivity. Qed.
+Lemma scalar_read_back sch v : scalar_ok v = true -> written v = true -> conforms sch v = true -> read_back sch (snd (tprop [] v)) = RtOk (norm v).
+Proof. destruct v; try discriminate; destruct sch; try discriminate; reflexivity. Qed.
 Lemma arr_ffacts v : is_arr v = true -> arr_ok v = true -> ffacts v 91 (arr_inner v ++ [93]).
 Proof.
   intros Ha Hok. apply block_ffacts.
   - right; auto.
   - apply arr_vtext, Ha.
-  - apply arr_inner_neutral; [right; auto|exact Hok].
+  - apply (proj1 (arr_inner_nice v Hok)). right; auto.
   - intro name. destruct v; try discriminate; reflexivity.
 Qed.
-Lemma arr_read_back v : is_arr v = true -> arr_ok v = true -> read_back v (VArr (vtext v)) = RtOk (norm v).
+Lemma arr_read_back_self v : is_arr v = true -> arr_ok v = true -> read_back v (VArr (vtext v)) = RtOk (norm v).
 Proof.
   intros Ha Hok. destruct v as [ | | | | | |w xs|xs|xs|xs|n| ]; try discriminate; cbn [arr_ok] in Hok; cbn [read_back norm].
   - destruct (int_array_round_trip w xs Hok) as [t Ht]. unfold round_trip in Ht. change (to_json (JAI w xs)) with (Some (vtext (JAI w xs))) in Ht.
@@ -299,18 +322,49 @@ Proof.
   - destruct (null_array_round_trip n) as [t Ht]. unfold round_trip in Ht. change (to_json (JAN n)) with (Some (vtext (JAN n))) in Ht.
     injection Ht as _ Ht. destruct (typed_list read_null (vtext (JAN n))); try discriminate. exact Ht.
 Qed.
+(* the readers of typed arrays look at the declared type only for the integer width *)
+Lemma arr_read_back sch v : is_arr v = true -> arr_ok v = true -> conforms sch v = true -> read_back sch (snd (tprop [] v)) = RtOk (norm v).
+Proof.
+  intros Ha Hok Hc. pose proof (arr_read_back_self v Ha Hok) as R.
+  destruct v as [ | | | | | |w xs|xs|xs|xs|n| ]; try discriminate; destruct sch as [ | | | | | |w' ys|ys|ys|ys|n'| ]; try discriminate.
+  - cbn [conforms] in Hc. apply iw_eqb_eq in Hc. subst w'. exact R.
+  - exact R.
+  - exact R.
+  - exact R.
+  - exact R.
+Qed.
 
 (* ================= the domain: trees ================= *)
 Lemma tree_ok_JO fs : tree_ok (JO fs) = forallb (fun nv => name_ok (fst nv) && tree_ok (snd nv)) fs && distinct (map fst fs).
 Proof. reflexivity. Qed.
+Lemma tree_ok_JAO xs : tree_ok (JAO xs) = forallb (fun y => match y with JO _ => tree_ok y | _ => false end) xs && match xs with [] => true | s0 :: _ => forallb (conforms s0) xs end.
+Proof. reflexivity. Qed.
+Fixpoint conf_fields (gl fl : list (list N * jv)) : bool :=
+  match gl, fl with
+  | [], [] => true
+  | g :: gr, f :: fr => beqs (fst g) (fst f) && conforms (snd f) (snd g) && conf_fields gr fr
+  | _, _ => false
+  end.
+Lemma conforms_JO gs fs : conforms (JO fs) (JO gs) = conf_fields gs fs.
+Proof. reflexivity. Qed.
+Lemma conforms_JAO ys ss : conforms (JAO ss) (JAO ys) = match ss with [] => (match ys with [] => true | _ => false end) | s0 :: _ => forallb (conforms s0) ys end.
+Proof. destruct ss; reflexivity. Qed.
 Fixpoint depth (v : jv) : nat :=
-  match v with JO fs => S (fold_right (fun nv m => Nat.max (depth (snd nv)) m) 0%nat fs) | _ => 0%nat end.
+  match v with
+  | JO fs => S (fold_right (fun nv m => Nat.max (depth (snd nv)) m) 0%nat fs)
+  | JAO xs => S (fold_right (fun y m => Nat.max (depth y) m) 0%nat xs)
+  | _ => 0%nat
+  end.
 Lemma depth_in fs nv : In nv fs -> (depth (snd nv) < depth (JO fs))%nat.
 Proof.
   cbn [depth]. induction fs as [|a r IH]; intro Hi; [contradiction|]. cbn [fold_right]. destruct Hi as [-> | Hi]; [lia|]. specialize (IH Hi). lia.
 Qed.
+Lemma depth_in_arr xs y : In y xs -> (depth y < depth (JAO xs))%nat.
+Proof.
+  cbn [depth]. induction xs as [|a r IH]; intro Hi; [contradiction|]. cbn [fold_right]. destruct Hi as [-> | Hi]; [lia|]. specialize (IH Hi). lia.
+Qed.
 
-(* ---------- the text of an object ---------- *)
+(* ---------- the text of an object and of an array of objects ---------- *)
 Lemma to_json_any v : to_json v = if written v then Some (vtext v) else None.
 Proof. destruct v; reflexivity. Qed.
 Lemma obj_vtext fs : vtext (JO fs) = obj_text (map line (wfs fs)).
@@ -324,6 +378,13 @@ Qed.
 Definition obj_inner (ls : list (list N)) : list N := CRLF ++ join ([44] ++ CRLF) ls ++ CRLF.
 Lemma obj_text_inner ls : obj_text ls = 123 :: obj_inner ls ++ [125].
 Proof. unfold obj_text, obj_inner. rewrite <- !app_assoc. reflexivity. Qed.
+Definition SEP : list N := [44] ++ CRLF.
+Lemma arrobj_vtext xs : forallb written xs = true -> vtext (JAO xs) = 91 :: join SEP (map vtext xs) ++ [93].
+Proof.
+  intro H. unfold vtext at 1. cbn [to_json]. cbn [app]. f_equal. f_equal. f_equal.
+  induction xs as [|x xs IH]; [reflexivity|]. cbn [forallb] in H. apply andb_prop in H as [Hx H].
+  cbn [flat_map map]. rewrite (to_json_any x), Hx. cbn [app]. f_equal. apply IH, H.
+Qed.
 Lemma name_str_ok n : name_ok n = true -> str_ok n = true.
 Proof.
   unfold name_ok, str_ok. intro H. apply andb_prop in H as [_ H]. apply forallb_forall. intros c Hi.
@@ -333,21 +394,16 @@ Proof.
   replace (N.leb 32 c) with true by (symmetry; apply N.leb_le; lia). replace (N.ltb c 127) with true by (symmetry; apply N.ltb_lt; lia).
   replace (N.eqb c 34) with false by (symmetry; apply N.eqb_neq; lia). replace (N.eqb c 92) with false by (symmetry; apply N.eqb_neq; lia). reflexivity.
 Qed.
-Lemma line_neutral name t : name_ok name = true -> Neutral 123 125 t -> Neutral 123 125 (prop_line name t).
+Lemma line_nice name t : name_ok name = true -> Nice t -> Nice (prop_line name t).
 Proof.
-  intros Hn Ht. assert (Hp : pairs 123 125) by (left; auto).
-  unfold prop_line, QUOTE. change ([32; 32; 34] ++ name ++ [34; 58; 32] ++ t) with ([32; 32] ++ (34 :: name ++ [34; 58; 32] ++ t)).
+  intros Hn Ht. unfold prop_line, QUOTE. change ([32; 32; 34] ++ name ++ [34; 58; 32] ++ t) with ([32; 32] ++ (34 :: name ++ [34; 58; 32] ++ t)).
   replace (34 :: name ++ [34; 58; 32] ++ t) with ((34 :: name ++ [34]) ++ [58; 32] ++ t) by (cbn [app]; rewrite <- app_assoc; reflexivity).
-  apply neutral_app; [apply pl_neutral; [exact Hp|reflexivity]|].
-  apply neutral_app; [apply str_neutral; [exact Hp|apply name_str_ok, Hn]|].
-  apply neutral_app; [apply pl_neutral; [exact Hp|reflexivity]|exact Ht].
+  apply nice_app; [apply nice_pl; reflexivity|]. apply nice_app; [apply nice_str, name_str_ok, Hn|]. apply nice_app; [apply nice_pl; reflexivity|exact Ht].
 Qed.
-Lemma obj_inner_neutral ls : Forall (Neutral 123 125) ls -> Neutral 123 125 (obj_inner ls).
+Lemma obj_inner_nice ls : Forall Nice ls -> Nice (obj_inner ls).
 Proof.
-  intro H. assert (Hp : pairs 123 125) by (left; auto). unfold obj_inner.
-  apply neutral_app; [apply pl_neutral; [exact Hp|reflexivity]|].
-  apply neutral_app; [|apply pl_neutral; [exact Hp|reflexivity]].
-  apply neutral_join; [apply pl_neutral; [exact Hp|reflexivity]|exact H].
+  intro H. unfold obj_inner. apply nice_app; [apply nice_pl; reflexivity|]. apply nice_app; [|apply nice_pl; reflexivity].
+  apply nice_join; [apply nice_pl; reflexivity|exact H].
 Qed.
 
 (* ---------- looking a field up among the scanned properties ---------- *)
@@ -380,9 +436,52 @@ Proof.
     exfalso. apply (existsb_false_in _ _ Ha (fst nv)); [apply in_map, Hi|exact E].
 Qed.
 
+(* ---------- the splitter on an array of object texts ---------- *)
+Definition objtext (t : list N) : Prop := exists inner, t = 123 :: inner ++ [125] /\ Neutral 123 125 inner.
+Lemma items_one_obj f inner rest acc : Neutral 123 125 inner ->
+  items_loop (S f) ((123 :: inner ++ [125]) ++ rest) acc = items_loop f rest (acc ++ [123 :: inner ++ [125]]).
+Proof.
+  intro Hn. cbn [app items_loop]. unfold QUOTE. cbn [N.leb N.eqb Pos.eqb N.compare Pos.compare Pos.compare_cont]. cbv iota.
+  rewrite <- app_assoc. cbn [app]. rewrite (read_block 123 125 inner rest); [reflexivity|discriminate|discriminate|reflexivity|exact Hn].
+Qed.
+Lemma items_sep f rest acc : items_loop (S (S (S f))) (SEP ++ rest) acc = items_loop f rest acc.
+Proof. reflexivity. Qed.
+Lemma items_objs : forall ts acc f rest, Forall objtext ts -> (length (join SEP ts) < f)%nat ->
+  items_loop f (join SEP ts ++ 93 :: rest) acc = (AOk (acc ++ ts), rest).
+Proof.
+  induction ts as [|t ts IH]; intros acc f rest Hf Hl.
+  - cbn [join app]. destruct f as [|f]; [lia|]. cbn [items_loop]. rewrite app_nil_r. reflexivity.
+  - inversion Hf as [|? ? (inner & -> & Hn) Hf']; subst.
+    destruct ts as [|u ts'].
+    + cbn [join] in *. destruct f as [|f]; [lia|]. rewrite items_one_obj by exact Hn.
+      destruct f as [|f]; [cbn [length] in Hl; rewrite app_length in Hl; cbn [length] in Hl; lia|]. cbn [items_loop]. reflexivity.
+    + change (join SEP ((123 :: inner ++ [125]) :: u :: ts')) with ((123 :: inner ++ [125]) ++ SEP ++ join SEP (u :: ts')) in *.
+      rewrite !app_length in Hl. cbn [length SEP CRLF app] in Hl. rewrite app_length in Hl. cbn [length] in Hl. change (44 :: CRLF) with SEP in Hl.
+      destruct f as [|f]; [lia|]. rewrite <- !app_assoc. rewrite items_one_obj by exact Hn.
+      destruct f as [|[|[|f]]]; try lia. rewrite items_sep.
+      rewrite IH by (auto; lia). rewrite <- app_assoc. reflexivity.
+Qed.
+Lemma low_no_high s : low s = true -> existsb (fun x => N.leb 128 x) s = false.
+Proof.
+  unfold low. induction s as [|c s IH]; intro H; [reflexivity|]. cbn [forallb existsb] in *. apply andb_prop in H as [Hc H]. apply N.ltb_lt in Hc.
+  replace (N.leb 128 c) with false by (symmetry; apply N.leb_gt; exact Hc). apply IH, H.
+Qed.
+Lemma split_obj_array ts : Forall objtext ts -> low (join SEP ts) = true -> split_array (91 :: join SEP ts ++ [93]) = AOk ts.
+Proof.
+  intros Hf Hl. unfold split_array.
+  assert (Hlow : existsb (fun x => N.leb 128 x) (91 :: join SEP ts ++ [93]) = false).
+  { apply low_no_high. unfold low in *. cbn [forallb]. rewrite forallb_app, Hl. reflexivity. }
+  rewrite Hlow. cbn [open_bracket].
+  destruct (join SEP ts ++ [93]) as [|c0 r0] eqn:E; [destruct (join SEP ts); discriminate|]. rewrite <- E.
+  change (N.leb 128 91) with false. change (ws1 91) with false. change (N.eqb 91 91) with true. cbn [negb andb]. cbv iota.
+  rewrite (items_objs ts [] _ [] Hf) by (rewrite app_length; cbn [length]; lia). cbn [app trailing_ws]. reflexivity.
+Qed.
+
 (* ================= the induction over the tree ================= *)
 Definition good (v : jv) : Prop :=
-  Neutral 123 125 (vtext v) /\ (exists c body, ffacts v c body) /\ read_back v (snd (tprop [] v)) = RtOk (norm v).
+  Nice (vtext v) /\ (exists c body, ffacts v c body) /\
+  (forall sch, conforms sch v = true -> read_back sch (snd (tprop [] v)) = RtOk (norm v)) /\
+  (forall fs, v = JO fs -> objtext (vtext v)).
 
 Lemma parse_nested fs (P : jv -> Prop) : (forall v, P v -> written v = true -> exists c body, ffacts v c body) ->
   Forall (fun nv => name_ok (fst nv) = true /\ P (snd nv)) fs ->
@@ -396,54 +495,125 @@ Proof.
   - unfold wfs. apply forallb_forall. intros x Hx. apply filter_In in Hx as [_ Hx]. exact Hx.
   - rewrite obj_text_tail by (rewrite E; cbn [map]; discriminate). cbn [length]. pose proof (tail_text_length (map line (wfs fs))) as Hl. rewrite map_length in Hl. lia.
 Qed.
+Lemma all_ok_map2 {A B C} (f : B -> rtres C) (g : A -> B) (h : A -> C) l : (forall x, In x l -> f (g x) = RtOk (h x)) -> all_ok f (map g l) = RtOk (map h l).
+Proof.
+  induction l as [|x l IH]; intro H; [reflexivity|].
+  cbn [all_ok map]. rewrite (H x (or_introl eq_refl)), IH by (intros y Hy; apply H; right; exact Hy). reflexivity.
+Qed.
 
 Theorem all_good : forall n v, (depth v <= n)%nat -> tree_ok v = true -> written v = true -> good v.
 Proof.
   induction n as [|n IH]; intros v Hd Hok Hw.
-  - (* leaves: scalars and arrays *)
+  - (* leaves: scalars and typed arrays *)
     destruct v as [s|b'|ng m|d p| |fs|w xs|xs|xs|xs|k|xs]; try discriminate; try (cbn [depth] in Hd; lia).
-    all: try (unfold good; split; [apply scalar_text_neutral; assumption|split; [apply scalar_ffacts; assumption|reflexivity]]).
-    all: unfold good; split; [apply arr_text_neutral_braces; [reflexivity|exact Hok]|split; [eexists; eexists; apply arr_ffacts; [reflexivity|exact Hok]|apply arr_read_back; [reflexivity|exact Hok]]].
+    all: try (unfold good; split; [apply scalar_text_nice; assumption|split; [apply scalar_ffacts; assumption|split; [intros sch Hc; apply scalar_read_back; assumption|intros ? ?; discriminate]]]).
+    all: unfold good; split; [apply arr_text_nice; [reflexivity|exact Hok]|split; [eexists; eexists; apply arr_ffacts; [reflexivity|exact Hok]|split; [intros sch Hc; apply arr_read_back; [reflexivity|exact Hok|exact Hc]|intros ? ?; discriminate]]].
   - destruct v as [s|b'|ng m|d p| |fs|w xs|xs|xs|xs|k|xs]; try (apply IH; [cbn [depth]; lia|assumption|assumption]).
-    (* an object: its fields are good by induction *)
-    rewrite tree_ok_JO in Hok. apply andb_prop in Hok as [Hfs Hdist].
-    assert (Hch : forall nv, In nv fs -> name_ok (fst nv) = true /\ tree_ok (snd nv) = true /\ (depth (snd nv) <= n)%nat).
-    { intros nv Hi. pose proof (proj1 (forallb_forall _ _) Hfs nv Hi) as H. apply andb_prop in H as [H1 H2].
-      pose proof (depth_in fs nv Hi). repeat split; auto. lia. }
-    set (P := fun v' => tree_ok v' = true /\ (depth v' <= n)%nat).
-    assert (HP : forall v', P v' -> written v' = true -> exists c body, ffacts v' c body).
-    { intros v' [H1 H2] H3. destruct (IH v' H2 H1 H3) as (_ & F & _). exact F. }
-    assert (HfP : Forall (fun nv => name_ok (fst nv) = true /\ P (snd nv)) fs).
-    { apply Forall_forall. intros nv Hi. destruct (Hch nv Hi) as (A & B & C). split; [exact A|split; assumption]. }
-    assert (Hinner : Neutral 123 125 (obj_inner (map line (wfs fs)))).
-    { apply obj_inner_neutral. apply Forall_forall. intros l Hl. apply in_map_iff in Hl as (nv & <- & Hnv).
-      unfold wfs in Hnv. apply filter_In in Hnv as [Hi Hwr]. destruct (Hch nv Hi) as (A & B & C).
-      unfold line. apply line_neutral; [exact A|]. destruct (IH (snd nv) C B Hwr) as (Nn & _ & _). exact Nn. }
-    assert (Etext : vtext (JO fs) = 123 :: obj_inner (map line (wfs fs)) ++ [125]) by (rewrite obj_vtext; apply obj_text_inner).
-    unfold good. split; [|split].
-    + rewrite Etext. apply neutral_block; try discriminate; try reflexivity. exact Hinner.
-    + exists 123, (obj_inner (map line (wfs fs)) ++ [125]). apply (block_ffacts (JO fs) 123 125); [left; auto|exact Etext|exact Hinner|reflexivity].
-    + change (snd (tprop [] (JO fs))) with (VObj (vtext (JO fs))). cbn [read_back norm].
-      rewrite (parse_nested fs P HP HfP).
-      rewrite (all_ok_map _ (fun nv => (fst nv, norm (snd nv)))); [reflexivity|].
-      intros nv Hi. rewrite find_last_field_t by assumption. destruct (Hch nv Hi) as (A & B & C).
-      destruct (written (snd nv)) eqn:Ew.
-      * unfold tprop'. rewrite tprop_snd. destruct (IH (snd nv) C B Ew) as (_ & _ & R). rewrite R. reflexivity.
-      * destruct (snd nv); try discriminate. reflexivity.
+    + (* an object: its fields are good by induction *)
+      rewrite tree_ok_JO in Hok. apply andb_prop in Hok as [Hfs Hdist].
+      assert (Hch : forall nv, In nv fs -> name_ok (fst nv) = true /\ tree_ok (snd nv) = true /\ (depth (snd nv) <= n)%nat).
+      { intros nv Hi. pose proof (proj1 (forallb_forall _ _) Hfs nv Hi) as H. apply andb_prop in H as [H1 H2].
+        pose proof (depth_in fs nv Hi). repeat split; auto. lia. }
+      set (P := fun v' => tree_ok v' = true /\ (depth v' <= n)%nat).
+      assert (HP : forall v', P v' -> written v' = true -> exists c body, ffacts v' c body).
+      { intros v' [H1 H2] H3. destruct (IH v' H2 H1 H3) as (_ & F & _). exact F. }
+      assert (HfP : Forall (fun nv => name_ok (fst nv) = true /\ P (snd nv)) fs).
+      { apply Forall_forall. intros nv Hi. destruct (Hch nv Hi) as (A & B & C). split; [exact A|split; assumption]. }
+      assert (Hinner : Nice (obj_inner (map line (wfs fs)))).
+      { apply obj_inner_nice. apply Forall_forall. intros l Hl. apply in_map_iff in Hl as (nv & <- & Hnv).
+        unfold wfs in Hnv. apply filter_In in Hnv as [Hi Hwr]. destruct (Hch nv Hi) as (A & B & C).
+        unfold line. apply line_nice; [exact A|]. destruct (IH (snd nv) C B Hwr) as (Nn & _). exact Nn. }
+      assert (Etext : vtext (JO fs) = 123 :: obj_inner (map line (wfs fs)) ++ [125]) by (rewrite obj_vtext; apply obj_text_inner).
+      assert (Hbr : pairs 123 125) by (left; auto).
+      unfold good. split; [|split; [|split]].
+      * rewrite Etext. apply nice_block; assumption.
+      * exists 123, (obj_inner (map line (wfs fs)) ++ [125]). apply (block_ffacts (JO fs) 123 125); [left; auto|exact Etext|exact (proj1 Hinner 123 125 Hbr)|reflexivity].
+      * intros sch Hc. destruct sch as [ | | | | |ss| | | | | | ]; try (cbn in Hc; discriminate). rewrite conforms_JO in Hc.
+        change (snd (tprop [] (JO fs))) with (VObj (vtext (JO fs))). cbn [read_back norm].
+        rewrite (parse_nested fs P HP HfP).
+        set (F := fun nv : list N * jv => match find_last (fst nv) (map tprop' (wfs fs)) with
+                                          | Some v0 => match read_back (snd nv) v0 with RtOk x => RtOk (fst nv, x) | RtErr => RtErr | RtPanic => RtPanic end
+                                          | None => RtOk (fst nv, JNull) end).
+        assert (G : forall gl fl, conf_fields gl fl = true -> (forall nv, In nv gl -> In nv fs) -> all_ok F fl = RtOk (map (fun nv => (fst nv, norm (snd nv))) gl)).
+        { induction gl as [|g gr IHg]; intros fl Hcf Hin; destruct fl as [|f0 fr]; try discriminate; [reflexivity|].
+          cbn [conf_fields] in Hcf. apply andb_prop in Hcf as [Hcf Hrest]. apply andb_prop in Hcf as [Hname Hconf]. apply beqs_eq in Hname.
+          assert (Hg : In g fs) by (apply Hin; left; reflexivity). destruct (Hch g Hg) as (A & B & C).
+          cbn [all_ok map]. unfold F at 1. rewrite <- Hname. rewrite (find_last_field_t fs Hdist g Hg).
+          rewrite (IHg fr Hrest (fun nv Hi => Hin nv (or_intror Hi))).
+          destruct (written (snd g)) eqn:Ew.
+          - unfold tprop'. rewrite tprop_snd. destruct (IH (snd g) C B Ew) as (_ & _ & R & _). rewrite (R (snd f0) Hconf). reflexivity.
+          - destruct (snd g); try discriminate. reflexivity. }
+        fold F. rewrite (G fs ss Hc (fun nv Hi => Hi)). reflexivity.
+      * intros fs0 _. rewrite Etext. exists (obj_inner (map line (wfs fs))). split; [reflexivity|exact (proj1 Hinner 123 125 Hbr)].
+    + (* an array of objects *)
+      rewrite tree_ok_JAO in Hok. apply andb_prop in Hok as [Hel Hconf].
+      assert (Hch : forall y, In y xs -> (exists fs, y = JO fs) /\ tree_ok y = true /\ written y = true /\ (depth y <= n)%nat).
+      { intros y Hi. pose proof (proj1 (forallb_forall _ _) Hel y Hi) as H. pose proof (depth_in_arr xs y Hi).
+        destruct y; try discriminate. repeat split; [eexists; reflexivity|exact H|lia]. }
+      assert (Hwr : forallb written xs = true) by (apply forallb_forall; intros y Hi; apply (Hch y Hi)).
+      assert (Etext : vtext (JAO xs) = 91 :: join SEP (map vtext xs) ++ [93]) by (apply arrobj_vtext, Hwr).
+      assert (Hinner : Nice (join SEP (map vtext xs))).
+      { apply nice_join; [apply nice_pl; reflexivity|]. apply Forall_forall. intros t Ht. apply in_map_iff in Ht as (y & <- & Hy).
+        destruct (Hch y Hy) as (_ & B & W & C). destruct (IH y C B W) as (Nn & _). exact Nn. }
+      assert (Hobjs : Forall objtext (map vtext xs)).
+      { apply Forall_forall. intros t Ht. apply in_map_iff in Ht as (y & <- & Hy).
+        destruct (Hch y Hy) as ((fs0 & E) & B & W & C). destruct (IH y C B W) as (_ & _ & _ & O). exact (O fs0 E). }
+      assert (Hsq : pairs 91 93) by (right; auto).
+      unfold good. split; [|split; [|split]].
+      * rewrite Etext. apply nice_block; assumption.
+      * exists 91, (join SEP (map vtext xs) ++ [93]). apply (block_ffacts (JAO xs) 91 93); [right; auto|exact Etext|exact (proj1 Hinner 91 93 Hsq)|reflexivity].
+      * intros sch Hc. destruct sch as [ | | | | | | | | | | |ss]; try (cbn in Hc; discriminate). rewrite conforms_JAO in Hc.
+        change (snd (tprop [] (JAO xs))) with (VArr (vtext (JAO xs))). cbn [read_back norm]. rewrite Etext.
+        rewrite (split_obj_array (map vtext xs) Hobjs (proj2 Hinner)). cbn [of_ares].
+        destruct ss as [|s0 ss'].
+        -- destruct xs; [reflexivity|discriminate].
+        -- rewrite (all_ok_map2 (fun it => read_back s0 (VObj it)) vtext norm); [reflexivity|].
+           intros y Hy. destruct (Hch y Hy) as ((fs0 & E) & B & W & C). destruct (IH y C B W) as (_ & _ & R & _).
+           pose proof (R s0 (proj1 (forallb_forall _ _) Hc y Hy)) as Ry. rewrite E in *. exact Ry.
+      * intros fs0 E. discriminate.
 Qed.
 
-(* ================= the theorem ================= *)
+(* a value of the domain can be read with itself as the declared type *)
+Lemma conforms_refl : forall n v, (depth v <= n)%nat -> tree_ok v = true -> conforms v v = true.
+Proof.
+  induction n as [|n IH]; intros v Hd Hok.
+  - destruct v as [s|b'|ng m|d p| |fs|w xs|xs|xs|xs|k|xs]; try reflexivity; try (cbn [depth] in Hd; lia). destruct w; reflexivity.
+  - destruct v as [s|b'|ng m|d p| |fs|w xs|xs|xs|xs|k|xs]; try reflexivity; try (destruct w; reflexivity).
+    + rewrite conforms_JO. rewrite tree_ok_JO in Hok. apply andb_prop in Hok as [Hfs _].
+      assert (G : forall gl, (forall nv, In nv gl -> In nv fs) -> conf_fields gl gl = true).
+      { induction gl as [|g gr IHg]; intro Hin; [reflexivity|]. cbn [conf_fields]. rewrite beqs_refl.
+        assert (Hg : In g fs) by (apply Hin; left; reflexivity).
+        pose proof (proj1 (forallb_forall _ _) Hfs g Hg) as H. apply andb_prop in H as [_ H2]. pose proof (depth_in fs g Hg).
+        rewrite (IH (snd g)) by (auto; lia). rewrite IHg by (intros nv Hi; apply Hin; right; exact Hi). reflexivity. }
+      apply G. auto.
+    + rewrite conforms_JAO. rewrite tree_ok_JAO in Hok. apply andb_prop in Hok as [_ Hc]. destruct xs; [reflexivity|exact Hc].
+Qed.
+
+(* ================= the theorems ================= *)
 Theorem nested_round_trip fs : tree_ok (JO fs) = true -> exists t, round_trip (JO fs) = Some (t, RtOk (norm (JO fs))).
 Proof.
-  intro Hok. destruct (all_good (depth (JO fs)) (JO fs) (le_n _) Hok eq_refl) as (_ & _ & R).
-  unfold round_trip. rewrite to_json_any. cbn [written]. eexists. f_equal. f_equal. exact R.
+  intro Hok. destruct (all_good (depth (JO fs)) (JO fs) (le_n _) Hok eq_refl) as (_ & _ & R & _).
+  unfold round_trip. rewrite to_json_any. cbn [written]. eexists. f_equal. f_equal.
+  exact (R (JO fs) (conforms_refl _ _ (le_n _) Hok)).
+Qed.
+Theorem object_array_round_trip xs : tree_ok (JAO xs) = true -> exists t, round_trip (JAO xs) = Some (t, RtOk (norm (JAO xs))).
+Proof.
+  intro Hok. destruct (all_good (depth (JAO xs)) (JAO xs) (le_n _) Hok eq_refl) as (_ & _ & R & _).
+  pose proof (R (JAO xs) (conforms_refl _ _ (le_n _) Hok)) as Rb. change (snd (tprop [] (JAO xs))) with (VArr (vtext (JAO xs))) in Rb.
+  unfold round_trip. rewrite to_json_any. cbn [written]. eexists. f_equal. f_equal.
+  cbn [read_back norm] in Rb. cbn [norm].
+  destruct (of_ares (split_array (vtext (JAO xs)))) as [items| |]; try discriminate.
+  destruct xs as [|s0 xs']; [destruct items; [reflexivity|discriminate]|].
+  destruct (all_ok (fun it => read_back s0 (VObj it)) items); try discriminate. exact Rb.
 Qed.
 
 (* the domain is inhabited: three levels; braces, brackets, commas and colons inside strings at depth; arrays of every element kind as fields;
-   an object all of whose fields are null; both integer extremes; floats *)
+   an array of objects whose elements differ in values and in which fields are null; an object all of whose fields are null; floats *)
 Definition tree_example : jv :=
   JO [([97], JO [([98], JS [125; 93; 123; 91; 44; 58]); ([99], JAS [[93; 91]; [125]; []]); ([100], JO [([101], JI true 5); ([102], JO [([103], JNull)])])]);
+      ([104], JAO [JO [([103], JS [125; 125]); ([105], JF [48; 46; 53] [48; 46; 53]); ([106], JAI I8 [(true, 128)])];
+                   JO [([103], JS [123]); ([105], JNull); ([106], JAI I8 [])]]);
       ([105], JAI I8 [(true, 128); (false, 127)]); ([106], JAF [([48; 46; 48], [48]); ([49; 46; 48], [49])]); ([107], JAB [true; false]); ([108], JAN 2);
-      ([109], JI true (2 ^ 127)); ([110], JF [49; 46; 53] [49; 46; 53]); ([111], JNull); ([112], JAI U128 []); ([113], JO [])].
+      ([109], JI true (2 ^ 127)); ([110], JF [49; 46; 53] [49; 46; 53]); ([111], JNull); ([112], JAI U128 []); ([113], JO []); ([114], JAO [])].
 Lemma tree_example_ok : tree_ok tree_example = true /\ flat_ok tree_example = false /\ (3 <= depth tree_example)%nat.
 Proof. vm_compute. repeat split; lia. Qed.
